@@ -32,6 +32,7 @@ type CancelSpec struct {
 	Attempt int    `json:"attempt"`
 	// Helper: cancel from a helper goroutine while item Item is waiting for its retry after attempt Attempt (free-running only)
 	DuringWait bool `json:"during_wait,omitempty"`
+	InPrep     bool `json:"in_prep,omitempty"` // cancel inside the batch node's prep callback
 }
 
 // BatchCase is the replayable case of the batch engines.
@@ -250,6 +251,18 @@ func (b *batchRun) mkItems() {
 			rs[i] = flyt.NewResult(p)
 		}
 		b.prepRet = rs
+	case "results-with-errors": // every third item already is an error Result: still an item to be processed
+		rs := make([]flyt.Result, n)
+		for i := range rs {
+			if i%3 == 1 {
+				rs[i] = flyt.NewErrorResult(&seedErr{b.nonce, i})
+				continue
+			}
+			p := &bItem{b.nonce, i}
+			b.payloads[i] = p
+			rs[i] = flyt.NewResult(p)
+		}
+		b.prepRet = rs
 	case "any":
 		s := make([]any, n)
 		for i := range s {
@@ -360,6 +373,13 @@ func (b *batchRun) prep(ctx context.Context, s *flyt.SharedStore) (any, error) {
 	if !b.cs.Lean {
 		b.record(BEvent{Kind: "prep", Item: -1})
 	}
+	if c := b.cs.Cancel; c != nil && c.InPrep && b.cancel != nil {
+		b.cancel()
+		sq := b.record(BEvent{Kind: "cancel", Item: -1})
+		b.mu.Lock()
+		b.cancelSeq = sq
+		b.mu.Unlock()
+	}
 	return b.prepRet, nil
 }
 
@@ -370,9 +390,29 @@ func (b *batchRun) script(i int) ItemScript {
 	return ItemScript{K: 1}
 }
 
+// seedErr is the error carried by an item that already IS an error Result when prep hands it over.
+type seedErr struct{ Nonce, I int }
+
+func (e *seedErr) Error() string { return fmt.Sprintf("item %d arrives as an error result", e.I) }
+
 // exec is the per-item exec callback (Any form: receives the unwrapped item value).
 func (b *batchRun) exec(ctx context.Context, item any) (any, error) {
-	i := b.indexOf(item)
+	return b.execIdx(ctx, b.indexOf(item), item)
+}
+
+// itemIndex identifies the item a Result denotes (error-Result items carry their index in the error).
+func (b *batchRun) itemIndex(it flyt.Result) int {
+	if it.IsError() {
+		var se *seedErr
+		if errors.As(it.Error(), &se) && se.Nonce == b.nonce {
+			return se.I
+		}
+		return -1
+	}
+	return b.indexOf(it.Value())
+}
+
+func (b *batchRun) execIdx(ctx context.Context, i int, item any) (any, error) {
 	if b.cs.Lean {
 		if i < 0 {
 			return nil, errors.New("unknown item")
@@ -426,7 +466,7 @@ func (b *batchRun) exec(ctx context.Context, item any) (any, error) {
 		b.rngMu.Unlock()
 		time.Sleep(time.Duration(d) * time.Microsecond)
 	}
-	if c := b.cs.Cancel; c != nil && !c.DuringWait && c.Item == i && c.Attempt == a && b.cancel != nil {
+	if c := b.cs.Cancel; c != nil && !c.DuringWait && !c.InPrep && c.Item == i && c.Attempt == a && b.cancel != nil {
 		b.cancel()
 		s := b.record(BEvent{Kind: "cancel", Item: i, Attempt: a, Gid: gid})
 		b.mu.Lock()
@@ -479,10 +519,13 @@ func (e *itemErr) Error() string {
 
 func (b *batchRun) fallback(prepRes any, err error) (any, error) {
 	v := prepRes
+	i := -1
 	if r, ok := prepRes.(flyt.Result); ok {
 		v = r.Value()
+		i = b.itemIndex(r)
+	} else {
+		i = b.indexOf(v)
 	}
-	i := b.indexOf(v)
 	if b.cs.Lean {
 		if i < 0 {
 			return nil, err
@@ -534,7 +577,7 @@ func (b *batchRun) post(ctx context.Context, s *flyt.SharedStore, items, results
 		b.postLenI, b.postLenR = len(items), len(results)
 		b.postItemsOK = len(items) == len(b.payloads)
 		for i := range items {
-			if b.postItemsOK && (items[i].IsError() || b.indexOf(items[i].Value()) != i) {
+			if b.postItemsOK && b.itemIndex(items[i]) != i {
 				b.postItemsOK = false
 			}
 		}
@@ -551,7 +594,7 @@ func (b *batchRun) post(ctx context.Context, s *flyt.SharedStore, items, results
 	ok := len(items) == len(b.payloads)
 	if ok {
 		for i := range items {
-			if items[i].IsError() || b.indexOf(items[i].Value()) != i {
+			if b.itemIndex(items[i]) != i {
 				ok = false
 			}
 		}
@@ -594,7 +637,7 @@ func (b *batchRun) build0() flyt.Node {
 		cs = &c2
 	}
 	execR := func(ctx context.Context, it flyt.Result) (flyt.Result, error) {
-		v, err := b.exec(ctx, it.Value())
+		v, err := b.execIdx(ctx, b.itemIndex(it), it.Value())
 		if err != nil {
 			if cs.ErrResult {
 				return flyt.NewErrorResult(err), nil
@@ -626,6 +669,16 @@ func (b *batchRun) build0() flyt.Node {
 		nodeOpts = append(nodeOpts, flyt.WithWait(wait))
 	}
 	switch cs.Build {
+	case "option-then-builder": // a positive concurrency through the constructor, then the case's value through the builder method
+		bn := flyt.NewBatchNode(flyt.WithBatchConcurrency(4), flyt.WithMaxRetries(7)).WithBatchConcurrency(cs.C).WithMaxRetries(cs.Budget)
+		if cs.Stop || cs.SetMode {
+			bn = bn.WithBatchErrorHandling(!cs.Stop)
+		}
+		bn = bn.WithPrepFunc(prepRes).WithPostFunc(b.post)
+		if cs.ExecStyle == "any" {
+			return bn.WithExecFuncAny(b.exec)
+		}
+		return bn.WithExecFunc(execR)
 	case "builder": // only the []Result prep shapes
 		bn := flyt.NewBatchNode().WithMaxRetries(cs.Budget).WithBatchConcurrency(cs.C)
 		if cs.Stop || cs.SetMode {
